@@ -67,6 +67,7 @@ impl T1Profile {
                 header_budget: 6000,
                 wait_reset: false,
                 any_code: false,
+                deferred_pushes: false,
             },
             max_streams: 6,
             io_noise: true,
@@ -1266,6 +1267,20 @@ pub fn run_t1(profile: &T1Profile, tape: Tape, opts: &T1Opts) -> RunOut {
         let no_conn_failure = hist.with(|h| h.abrupt.is_empty() && h.conn_results.iter().all(|r| !matches!(r, Some(Err(_)))))
             && (0..2).all(|s| mon.ep[s].goaway_out.iter().all(|g| g.1 == 0) && mon.ep[s].goaway_in.iter().all(|g| g.1 == 0));
         check_peer_resets(&hist, &mon, !fatal_cfg && no_conn_failure && !profile.inject, &mut violations, step);
+    }
+    // C15 (client side): the same for pushed streams whose response the client application
+    // already holds, whatever makes the client send a GOAWAY (last handle dropped, error)
+    {
+        let taken = hist.with(|h| h.pushed_taken_step.clone());
+        let cl = &mon.ep[0];
+        for (i, g) in cl.goaway_out.iter().enumerate() {
+            let gstep = cl.goaway_out_step.get(i).copied().unwrap_or(u64::MAX);
+            for (pid, st) in &taken {
+                if *st < gstep && *pid > g.0 {
+                    violations.push(Violation::new("C15", "goaway-last-id-below-accepted-stream", "client", format!("client sent GOAWAY(last={}, code={}) at step {} although the response of pushed stream {} had been handed to the application at step {}", g.0, g.1, gstep, pid, st), step));
+                }
+            }
+        }
     }
     // C15: GOAWAY last-stream-id covers every stream already handed to the application;
     // the peer's code and origin surface in the client's connection result; a graceful
